@@ -73,7 +73,16 @@ func dynCalleeName(x ssa.Value) string {
 				return a.Comment
 			case *ssa.FreeVar:
 				return a.Name()
+			case *ssa.FieldAddr:
+				// function value stored in a struct field (`evm.Context.CanTransfer(...)`): named by the field
+				if st, ok := a.X.Type().Underlying().(*types.Pointer).Elem().Underlying().(*types.Struct); ok && a.Field < st.NumFields() {
+					return st.Field(a.Field).Name()
+				}
 			}
+		}
+	case *ssa.Field:
+		if st, ok := t.X.Type().Underlying().(*types.Struct); ok && t.Field < st.NumFields() {
+			return st.Field(t.Field).Name()
 		}
 	}
 	return ""
@@ -687,6 +696,30 @@ func (fc *FuncCtx) checkAppendDiscipline(fr *Frame, com *ssa.CallCommon, ins ssa
 			}
 		}
 	}
+	if u, isLoad := src.(*ssa.UnOp); isLoad && u.Op == token.MUL && okShape {
+		// x = append(x, ...) where x is elsewhere assigned a re-slice of a slice (x = y[a:b], typically x = x[:0] to reuse the
+		// buffer): the append then writes into a backing array that other slice values still share. Slices are values in this
+		// model, so the overwrite would go unnoticed - refuse instead of proving something about different code.
+		if a, isAlloc := u.X.(*ssa.Alloc); isAlloc {
+			if refs := a.Referrers(); refs != nil {
+				for _, r := range *refs {
+					if s, isStore := r.(*ssa.Store); isStore && s.Addr == a {
+						if sl, isSl := s.Val.(*ssa.Slice); isSl {
+							if _, ofSlice := sl.X.Type().Underlying().(*types.Slice); ofSlice {
+								unsupported("append to %s, which is also assigned a re-slice of a slice (%s): shared backing arrays are not modelled", a.Comment, fc.v.fset.Position(s.Pos()))
+							}
+						}
+					}
+				}
+			}
+		}
+	}
+	if sl, isSl := src.(*ssa.Slice); isSl {
+		if _, ofSlice := sl.X.Type().Underlying().(*types.Slice); ofSlice {
+			// append(y[a:b], ...) overwrites y's elements behind b in place
+			unsupported("append to a re-slice of a slice at %s: shared backing arrays are not modelled", fc.v.fset.Position(ins.Pos()))
+		}
+	}
 	if _, isMk := src.(*ssa.MakeSlice); isMk {
 		okShape = true
 	}
@@ -889,6 +922,17 @@ func (fc *FuncCtx) contractCall(fr *Frame, st *State, com *ssa.CallCommon, key s
 	for i := range args {
 		argTerms[i] = fc.argTerm(st, args[i], &borrows)
 		want := v.tm.SortOf(tys[i])
+		if argTerms[i].Sort != want && isSliceSort(argTerms[i].Sort) && !isSliceSort(want) {
+			// a list built element by element as a concrete slice (`rawslice`) passed where the abstract list sort is expected:
+			// the abstract value is the uninterpreted fromraw_<sort>(slice), exactly as for a store into a field (state.go)
+			for _, at := range v.tm.abstract {
+				if at.Sort == want && at.ListNil != "" {
+					v.notes["a rawslice value passed as an argument of abstract list sort "+want.Name+" is read as the uninterpreted value fromraw(slice)"] = true
+					argTerms[i] = c.UF("fromraw_"+sanitize(want.Name), want, argTerms[i])
+					break
+				}
+			}
+		}
 		if argTerms[i].Sort != want {
 			unsupported("call %s: argument %s has sort %s, expected %s", key, names[i], argTerms[i].Sort.Name, want.Name)
 		}
@@ -1178,12 +1222,29 @@ func (fc *FuncCtx) assumeEnsures(st, pre *State, spec *FuncSpec, key string, var
 		}
 	}
 	for _, e := range spec.Ensures {
+		if v.knownFalsePost(key, e.Label) {
+			continue
+		}
 		t, err := post.EvalBool(e.E)
 		if err != nil {
 			panic(specError{fmt.Sprintf("ensures of %s (line %d): %v", key, e.Line, err)})
 		}
 		st.assume(v.c, t)
 	}
+}
+
+// knownFalsePost: the callee's postcondition LABEL is a recorded known finding (`-known`): it does not hold on this tree, so
+// callers must not assume it - everything that follows from it would otherwise prove under a false hypothesis.
+func (v *Verifier) knownFalsePost(key, label string) bool {
+	if label == "" {
+		return false
+	}
+	base := shortFuncName(key) + "#post." + label
+	if _, ok := v.known[base]; ok {
+		v.notes["postcondition "+base+" is a known finding: not assumed at call sites"] = true
+		return true
+	}
+	return false
 }
 
 // assumeEnsuresSubst assumes the callee's postconditions; conjuncts of the form fresh == term (fresh being a
@@ -1239,6 +1300,9 @@ func (fc *FuncCtx) assumeEnsuresSubst(st, pre *State, spec *FuncSpec, key string
 		conj = append(conj, t)
 	}
 	for _, e := range spec.Ensures {
+		if v.knownFalsePost(key, e.Label) {
+			continue
+		}
 		if ensuresMentionsRet(spec, e.E) {
 			// a postcondition over ret(Callee, n, i) speaks about the callee's own call history: it is proved for the
 			// callee and not exported to its callers
